@@ -558,8 +558,13 @@ def check(P, R):
 
     # ---- h: the route dispatched is the one the tree lookup selected
     R.rule('C01.h', 'the dispatched route comes from the tree lookup only', floor=1)
+    # the object whose method table is consulted: `route[methods]`, `route.<lookup>(methods)`, or (a lookup written out) `route._methods`
     uses = [x for x in walk_shallow(rs.node) if isinstance(x, ast.Subscript) and isinstance(x.ctx, ast.Load) and isinstance(x.value, ast.Name)
             and src(x.slice) == rs.params[2]]
+    uses += [x.func for x in walk_shallow(rs.node) if isinstance(x, ast.Call) and isinstance(x.func, ast.Attribute) and isinstance(x.func.value, ast.Name)
+             and x.func.value.id != 'self' and any(src(a) == rs.params[2] for a in x.args)]
+    uses += [x for x in walk_shallow(rs.node) if isinstance(x, ast.Attribute) and x.attr == '_methods' and isinstance(x.value, ast.Name)
+             and x.value.id != 'self']
     R.require(uses, 'resolve: route[methods] not found')
     for u in uses:
         un = rs.cfg.node_of_stmt(u)[0]
